@@ -264,7 +264,12 @@ Outcome RunC02(RunCtx& ctx)
 	{
 		InCfg c;
 		if (j > nStream) { c.readOnlyMem = true; ctx.count("entry.readonly_view"); }
-		else if (j > 0) c = DrawStreamCfg(s, sim::L_IO);
+		else if (j > 0)
+		{
+			c = DrawStreamCfg(s, sim::L_IO);
+			// 1 stream in 4: the caller has enabled exceptions for failbit and/or eofbit on its stream
+			if (s.chance(sim::L_IO, 1, 4)) { c.excMask = DrawExceptionMask(s, sim::L_IO); ctx.count("stream.exception_mask"); }
+		}
 		ctx.note("load #" + std::to_string(j) + " via " + c.str());
 		CallResult r;
 		int64_t peak = 0;
